@@ -55,9 +55,14 @@ func TestC07(t *testing.T) {
 	for i := 0; i < nreal; i++ {
 		cases = append(cases, mon.CaseSpec{Name: "real", Spec: c07Spec{Mode: "real", NCtx: 1 + rnd.Intn(3), NPipes: 2 + rnd.Intn(2), NOps: 3 + rnd.Intn(6), Tr: trs[rnd.Intn(len(trs))]}})
 	}
+	for i := 0; i < r.Pick(100, 3000); i++ {
+		cases = append(cases, mon.CaseSpec{Name: "slow-respondent", Spec: c07Spec{Mode: "slow", NCtx: 1 + rnd.Intn(2), NPipes: 2, NOps: rnd.Intn(20)}})
+	}
 	r.Run(cases, func(c *mon.Case) {
 		sp := c.Spec.(c07Spec)
 		switch sp.Mode {
+		case "slow":
+			c07Slow(c, sp)
 		case "script":
 			c07Script(c, sp)
 		case "conc":
